@@ -4,6 +4,7 @@ package xtime
 import (
 	"context"
 	"fmt"
+	"math"
 	"math/rand"
 	"sync"
 	"time"
@@ -93,8 +94,17 @@ func (t *JitterTicker) schedule() {
 	}
 	next := t.d
 	if t.jitter > 0 {
-		// rand.Int63n panics for 0.
-		next = t.d + time.Duration(rand.Int63n(int64(t.jitter*2))) - (t.jitter)
+		// Uniform in [d-jitter, d+jitter). rand.Int63n panics for 0, and jitter*2 or d+jitter may
+		// not fit in an int64 for very long durations, so build it up in steps that cannot
+		// overflow and saturate at the end.
+		next = t.d - t.jitter + time.Duration(rand.Int63n(int64(t.jitter)))
+		if rand.Intn(2) == 1 {
+			if next > math.MaxInt64-t.jitter {
+				next = math.MaxInt64
+			} else {
+				next += t.jitter
+			}
+		}
 	}
 
 	// To prevent a latent goroutine already spawned but not yet running the below function from
